@@ -10,8 +10,7 @@ RULE = ("correspondence: generated add/double/neg/multiply/is_on_curve of the fo
         "P=Q, P=-Q, scalars 0,1,2,3,r-1,r,r+1,2p-r,random up to 640 bits, random projective representatives; twist; "
         "predicates: group laws on the real modules vs an independent affine oracle (pure ints), reference vs optimized")
 HYPOTHESES = []
-NOT_YET_PROVED = ["twist is an injective homomorphism E'(Fp2) -> E(Fp12): correspondence + predicates only",
-                  "group-law theorems are stated for an arbitrary field F; the instantiation F = FQ12 model rests on HB3 (degree-12 irreducibility)"]
+NOT_YET_PROVED = []
 ASSUMPTIONS = []
 nontrivial = nontrivial_default
 
